@@ -24,6 +24,11 @@ def run(run):
     ER.advinit(run, E.fx, 'LAZYFILL')
     from . import c03, c09
     c03.charinfo_ctor(run, E.fx, 'LAZYFILL')        # nothing a fresh segment reports is left as malloc returned it (shared with C03)
+    from . import c01 as c01_
+    c01_.outparams(run, E.fx, 'LAZYFILL')           # a lazily loaded glyph is a function of the tables alone: no out-parameter of a refused sfnt helper (stack garbage) goes into it (shared with C01)
+    from . import c02 as c02_
+    if not run.cfg_tag:
+        c02_.attrstride(run, 'PARTITION')               # a segment made while a log is open has the same user attributes as one made before or after (shared with C02)
     c09.noglobal_ast(run, E.fx)                     # no mutable static storage, in either VM driver (shared with C09)
     try:
         c09.telescope(run)                          # the telemetry build's allocation category is back to null after every load (shared with C09)
